@@ -58,14 +58,16 @@ def cases_file(cases):
 
 # ---- C02: the separation condition of the list-memory lifting of the 8-valued loop (Proofs/LogicSimLoop8.v ops_sep_b) ----------------------
 SEP_HEADER = '''From Coq Require Import List NArith ZArith Bool Arith String.
-From KV Require Import Model.Logic Model.Netlist Model.SimOps Model.LogicSimModel Model.Corr Proofs.LogicSimLoop8.
+From KV Require Import Model.Logic Model.Netlist Model.SimOps Model.LogicSimModel Model.Corr Proofs.LogicSimLoop8 Proofs.LogicSimLoopN.
 Import ListNotations.
 Local Open Scope list_scope.
 Local Open Scope string_scope.
-(* 0: separation violated; 1: holds; 2: outside (an op writes the scratch slot: gate without output line); 3: build fails *)
+(* 0: separation violated; 1: holds; 2: an op writes the scratch slot (gate without output line) and the EXTENDED check ops_sepx_b
+   (Proofs/LogicSimLoopN.v: separated, or the output location is a scratch location) holds; 3: build fails *)
 Definition sep_case (c : netlist) (reuse strip : bool) : nat :=
   match build c (repeat 1%N (List.length (c_lines c) + 3)) 1%N reuse strip with
-  | Some so => if existsb (fun o => Nat.eqb (s_out o) (so_nlines so + 1)) (so_ops so) then 2 else if ops_sep_b so then 1 else 0
+  | Some so => if existsb (fun o => Nat.eqb (s_out o) (so_nlines so + 1)) (so_ops so) then (if ops_sepx_b so then 2 else 0)
+               else if ops_sep_b so && ops_sepx_b so then 1 else 0
   | None => 3
   end.
 '''
@@ -85,16 +87,18 @@ def real_sep(sim):
     locs = [int(x) for x in sim.c_locs]
     t0, t1 = locs[sim.tmp_idx], locs[sim.tmp2_idx]
     rows = [[int(x) for x in r[:6]] for r in sim.ops]
-    if any(r[1] == sim.tmp_idx for r in rows):
-        return 2
     if t0 < 0 or t1 < 0 or t0 == t1:
         return 0
     for r in rows:
         lo = locs[r[1]]
+        if lo >= 0 and (lo == t0 or lo == t1) and r[1] == sim.tmp_idx:
+            continue                      # extended check: the op writes a scratch location only
         if lo < 0 or lo == t0 or lo == t1:
             return 0
         for x in r[2:6]:
             l = locs[x]
             if l < 0 or l == lo or l == t0 or l == t1:
                 return 0
+    if any(r[1] == sim.tmp_idx for r in rows):
+        return 2
     return 1
